@@ -738,6 +738,51 @@ def rule_exact_finish(ctx, rule='R09.11'):
     ctx.covered(rule, 'getSimulation evaluated over mode x integrator x safe_mode x keep_unsynchronized: exact_finish_time=1 only with the switch off', n, floor=16, samples=samples)
 
 
+def rule_discarded_updates(ctx, rule='R09.12'):
+    """R09.12: with keep_unsynchronized a function saves the cached coordinates, synchronises them, uses the result and puts
+    the saved copy back. The operators applied by the synchronise call are meant to be undone - but an update written
+    directly into the cache between the two copies (the explicit half step of the variational centre of mass in WHFast's
+    part2) is undone with them. Every direct compound assignment to the saved buffer between backup and restore must be
+    applied again after the restore."""
+    from . import extents
+    n = 0
+    samples = []
+    for cfile in ('integrator_whfast.c', 'integrator_saba.c', 'integrator_mercurius.c', 'integrator_eos.c'):
+        tu = cfront.load_tu(cfile)
+        for fname in sorted(tu.funcs):
+            fn = tu.func(fname)
+            b = cfront.body(fn)
+            if b is None:
+                continue
+            L = extents.lets(fn)
+            R_ = lambda e: extents.canon(extents.resolve(render(e), L)).replace('&', '')
+            copies = [(line_of(e), R_(call_args(e)[0]), R_(call_args(e)[1])) for e in walk(b) if e.get('kind') == 'CallExpr' and callee_name(e) == 'memcpy' and len(call_args(e)) == 3]
+            for (l1, d1, s1) in copies:
+                for (l2, d2, s2) in copies:
+                    if l2 > l1 and d2 == s1 and s2 == d1:
+                        buf = s1
+                        n += 1
+                        between, after = [], []
+                        for e in walk(b):
+                            if cfront.is_assign(e) and e['opcode'] in ('+=', '-=', '*=', '/='):
+                                l0 = strip(e['inner'][0], casts=True)
+                                base = l0
+                                while base.get('kind') in ('MemberExpr', 'ArraySubscriptExpr'):
+                                    base = strip(base['inner'][0], casts=True)
+                                if R_(base) == buf or R_(base).startswith(buf):
+                                    txt = render(e).replace(' ', '')
+                                    if l1 < line_of(e) < l2:
+                                        between.append((txt, line_of(e)))
+                                    elif line_of(e) > l2:
+                                        after.append(txt)
+                        for txt, ln in between:
+                            if txt not in after:
+                                ctx.report(rule, '%s:discarded:%s' % (fname, txt[:40]), 'src/%s:%s %s' % (cfile, ln, fname),
+                                           'the update %s is written into %s between its backup (line %s) and its restore (line %s) and is not applied again afterwards: with keep_unsynchronized it is lost every step' % (txt, buf, l1, l2))
+                        samples.append('src/%s %s: %s saved at line %s, restored at line %s, %d direct update(s) in between' % (cfile, fname, buf, l1, l2, len(between)))
+    ctx.covered(rule, 'direct updates of a saved-and-restored coordinate cache are re-applied after the restore', n, floor=3, samples=samples)
+
+
 def run(ctx):
     rule_python_snapshot_pickup(ctx)
     rule_exact_finish(ctx)
@@ -746,4 +791,5 @@ def run(ctx):
     rule_keep_unsynchronized(ctx)
     rule_sync_before_callbacks(ctx)
     rule_cache_invalidation(ctx)
+    rule_discarded_updates(ctx)
     ctx.not_decided.append('rounding-level equality of merged and split drifts; the EOS truncation claim; WHFast512 (AVX512 build is not the analysed configuration in the quick tier)')
